@@ -195,7 +195,11 @@ bool GeneratorImplAST::ViDecart(Cursor iter) {
     if (child > 0) {
       rsText += Token::Str(TokenID::DECART, syntax);
     }
-    OutputChild(iter, child, iter(child).id == TokenID::DECART);
+    OutputChild(
+      iter,
+      child,
+      Token::CompareOperations(TokenID::DECART, iter(child).id) != Comparison::INCOMPARABLE
+    );
   }
   return true;
 }
